@@ -51,7 +51,7 @@ def run(ctx):
         ctx.violation(key, 'segments yielded for superpacket %s via %s are not a segmentation of it: %s' %
                       (json.dumps(sup), ln.get('via'), explain(ln)), fl)
     ctx.extra['non_maximal_packings'] = len(other)
-    ctx.require_actions('tcp4', 'tcp6', 'udp4', 'udp6', 'via:virtio', 'via:tio', 'header-only', 'short-tail', 'exact-multiple',
+    ctx.require_actions('tcp4', 'tcp6', 'udp4', 'udp6', 'udp4:segment-checksum-computes-to-zero', 'udp6:segment-checksum-computes-to-zero', 'via:virtio', 'via:tio', 'header-only', 'short-tail', 'exact-multiple',
                         'single', 'ipopt4', 'ipopt6', 'tcpopt', 'wrap', 'random')
     if res.get('actions', {}).get('refused', 0) and not ctx.violations:
         raise MachineryError('superpackets were refused but no violation was derived')
